@@ -307,6 +307,13 @@ class MboxMixin(object):
             if left:
                 self.flag({"C08"}, "after the last close something of the mailbox is still stored", st,
                           {"mailbox": mid, "left": left})
+                # by the statements this incarnation is over and its messages are gone: whoever opens the id next starts empty
+                self.mb.pop(key, None)
+                self.msgs.pop(key, None)
+                for other in self.cm.values():
+                    if other.sub is m:
+                        other.sub = None
+                        other.stale = True
         else:
             self.dontcare["c08_lifetime"] += 1
         # C09 (c): what `closed` acknowledges is committed
